@@ -26,7 +26,7 @@ TrBegin(e) ==
     /\ SameSlots(e.lp, LP') /\ SameSlots(e.rp, RP') /\ SameSlots(e.ver, ver')
 
 TrEnd(e) ==
-    /\ pc = "idle" /\ todo = <<>>
+    /\ (pc = "idle" \/ (pc = "cleanup" /\ last.op = "run_cleanup")) /\ todo = <<>>
     /\ pc' = "config" /\ last' = [op |-> "end"]
     /\ UNCHANGED <<cfg, ver, LP, RP, retL, retR, eff, todo, cur, k, sw, sweeps, opt, hs, ext, ok, nrec>>
 
@@ -73,6 +73,11 @@ TraceNext ==
          [] e.ev = "sweep_end" -> SweepEnd /\ SameSlots(e.lp, LP') /\ SameSlots(e.rp, RP') /\ SameSlots(e.ver, ver')
          [] e.ev = "call" -> TrCall(e)
          [] e.ev = "ext" -> TrExt(e)
+         [] e.ev = "run_cleanup" -> RunCleanup
+         [] e.ev = "canon" -> CanonBegin(e.err, e.iter)
+         [] e.ev = "canon_env" -> CanonEnv(e.err)
+         [] e.ev = "canon_form" -> CanonForm
+         [] e.ev = "run_end" -> RunEnd(e.err)
          [] OTHER -> FALSE
     /\ ok'          \* the implementation did not raise, so the specification must not either
 
@@ -142,6 +147,11 @@ EnvTraceNext ==
          [] e.ev = "ext" -> EnvCall(e)
          [] e.ev \in {"sweep_begin", "step", "make_eff_H", "update_local", "update_env", "post_update_local", "free",
                       "sweep_end"} -> EnvMarker(e)
+         [] e.ev = "run_cleanup" -> RunCleanup
+         [] e.ev = "canon" -> CanonBegin(e.err, e.iter)
+         [] e.ev = "canon_env" -> CanonEnv(e.err)
+         [] e.ev = "canon_form" -> CanonForm
+         [] e.ev = "run_end" -> RunEnd(e.err)
          [] OTHER -> FALSE
     /\ ok'
 
